@@ -78,6 +78,20 @@ def nodal_analysis_constants_vector(network: Network, node_mapper: map.NetworkMa
     V = np.array([network[vs].element.V for vs in vs_mapping.keys])
     return np.hstack((I, V))
 
+def conductively_attached_nodes(network: Network, node: str) -> set[str]:
+    attached_nodes = {node}
+    nodes_to_visit = [node]
+    while nodes_to_visit:
+        current_node = nodes_to_visit.pop()
+        for branch in network.branches_connected_to(current_node):
+            if branch.element.Y == 0: # open circuits and ideal current sources do not attach anything
+                continue
+            other_node = branch.node1 if branch.node1 != current_node else branch.node2
+            if other_node not in attached_nodes:
+                attached_nodes.add(other_node)
+                nodes_to_visit.append(other_node)
+    return attached_nodes
+
 def open_circuit_impedance(network: Network, node1: str, node2: str, node_index_mapper: map.NetworkMapper = map.default_node_mapper) -> complex:
     if node1 == node2:
         return 0
@@ -85,16 +99,14 @@ def open_circuit_impedance(network: Network, node1: str, node2: str, node_index_
         return 0
     if network.is_zero_node(node1):
         node1, node2 = node2, node1
-    network = trf.switch_ground_node(network=network, new_ground=node2)
-    Y = nodal_analysis_coefficient_matrix(network, node_mapper=node_index_mapper)
-    i1 = node_index_mapper(network)[node1]
-    retained_columns = [int(i) for i in np.where(Y.any(axis=0))[0]]
-    retained_rows = [int(i) for i in np.where(Y.any(axis=1))[0]]
-    if i1 not in retained_columns or i1 not in retained_rows:
+    attached_nodes = conductively_attached_nodes(network, node1)
+    if node2 not in attached_nodes:
         return np.inf
-    Y = Y[np.ix_(retained_rows, retained_columns)]
+    network = Network(branches=[b for b in network.branches if b.node1 in attached_nodes and b.node2 in attached_nodes], node_zero_label=node2)
+    Y = nodal_analysis_coefficient_matrix(network, node_mapper=node_index_mapper)
     Z = np.linalg.inv(Y)
-    return Z[retained_columns.index(i1)][retained_rows.index(i1)]
+    i1 = node_index_mapper(network)[node1]
+    return Z[i1][i1]
 
 def element_impedance(network: Network, element: str, node_index_mapper: map.NetworkMapper = map.default_node_mapper) -> complex:
     return open_circuit_impedance(
